@@ -439,6 +439,62 @@ func ruleCopyLimit(c *Ctx) {
 			add(key, b.posOf(if2), bad == "", "store dominates both conjuncts; conj2 only under conj1; the both-true edge returns the *AccumulatedCopySizeError constructor's result; both conjunct blocks precede container.add, which is unreachable from the over-limit edge", bad)
 		}
 
+		// (vi) a copy that cannot take place is not charged, and its own failure is what is reported:
+		// the accumulation happens only after both locations have been resolved (every
+		// findObject call of the handler has answered with a container)
+		if st != nil {
+			key := "(vi) the copy is charged only after source and destination have been resolved"
+			bad := ""
+			n := 0
+			allInstrs(h, func(i ssa.Instruction) {
+				call, ok := i.(*ssa.Call)
+				if !ok || !b.isFindObjectCall(&call.Call) {
+					return
+				}
+				n++
+				var con ssa.Value
+				for _, ex := range extractOf(call, 0) {
+					con = ex
+				}
+				okRes := false
+				if con != nil {
+					for _, t := range nilTests(h, con) {
+						nilSucc := t.Blk.Succs[1-t.NonNilSucc]
+						// the accumulation must be unreachable from the "no container" edge
+						seen := map[*ssa.BasicBlock]bool{}
+						var reach func(bb *ssa.BasicBlock) bool
+						reach = func(bb *ssa.BasicBlock) bool {
+							if bb == st.Block() {
+								return true
+							}
+							if seen[bb] {
+								return false
+							}
+							seen[bb] = true
+							for _, sx := range bb.Succs {
+								if reach(sx) {
+									return true
+								}
+							}
+							return false
+						}
+						fromNil := reach(nilSucc)
+						seen = map[*ssa.BasicBlock]bool{}
+						afterTest := reach(t.Blk.Succs[t.NonNilSucc])
+						if !fromNil && afterTest && call.Block().Dominates(t.Blk) {
+							okRes = true
+						}
+					}
+				}
+				if !okRes {
+					bad = "the running total is increased at " + b.posOf(st) + " before the location looked up at " + b.posOf(call) + " is known to exist: a copy to an unreachable destination is charged, and can be reported as over the limit instead of as a missing path"
+				}
+			})
+			if n == 0 {
+				bad = "no location lookup in the copy handler"
+			}
+			add(key, b.posOf(st), bad == "", fmt.Sprintf("the accumulation is dominated by the non-nil edge of all %d location lookup(s)", n), bad)
+		}
 		// other handlers never touch the accumulator: only the copy handler has a *int64 parameter
 		{
 			var others []string
